@@ -225,6 +225,17 @@ CLAIMED["C17"] = dict(
         "doMaybeManifestize batching, completeness of the overlay (every uncovered old byte stays visible). One defect repaired (holes not zeroed). " + TRUST,
    design="DESIGN.md §4 C17")
 
+CLAIMED["C04"] = dict(
+   text="Proof-level kernel of the copy decision, both offset widths: for the scanner of Compact (VolumeFileScanner4Vacuum.VisitNeedle) and the per-entry closure of "
+        "Compact2 (copyDataBasedOnIndexFile) - a record is never copied unless the needle map points at this very record and does not call it deleted (never "
+        "resurrects); a live record whose volume TTL, counted from its last-modified time with the TTL unit applied, has not passed is copied exactly once into the new "
+        "needle map under its id and size and appended to the new data file (exact 64-bit arithmetic over a ghost clock); the reader's notion of 'still readable' (needle "
+        "TTL from the append time, empty blobs) is stated as two further clauses that are refuted and listed as open findings.",
+   note="Needle map, destination file and throttle are opaque sinks; makeupDiff (replay of writes that arrived during the compaction; the seeded change C04-m1 lives "
+        "there), CommitCompact's renames and the schedule of concurrent writes are not decided here. Two open known findings (compaction and reads disagree on expiry; "
+        "empty blobs are dropped), both replayed on the real code. Observation: the TTL product is computed in 32 bits (wraps from 137 years). " + TRUST,
+   design="DESIGN.md §4 C04")
+
 NA = {
  "C03":"crash-point property over byte-level truncation of two persistent files; no per-function contract within reach decides it (DESIGN §4 C03)",
  "C10":"needs inductive tree predicates and cardinality reasoning over interface-typed nodes in pointer maps with randomised picking (DESIGN §4 C10)",
